@@ -273,7 +273,12 @@ PRelocInfo ReadRelocInfo(FILE* f) {
         /* read global numbers */
 
         if ((Read4(f, &PInfo->RelocCount)) && (Read4(f, &PInfo->ExportCount))
-            && (Read4(f, &StringLen))) {
+            && (Read4(f, &StringLen))
+            /* 16 bytes per entry plus the strings must still be in the file;
+               do not allocate for counts a corrupt file only claims: */
+            && (((LargeWord)PInfo->RelocCount + (LargeWord)PInfo->ExportCount) * 16
+                        + StringLen
+                <= (LargeWord)(FileSize(f) - ftell(f)))) {
             /* allocate memory */
 
             PInfo->RelocEntries
